@@ -176,7 +176,8 @@ var errLine = regexp.MustCompile(`^(?:\./)?([A-Za-z0-9_./-]+\.go):(\d+)(?::\d+)?
 // RunLawTest compiles the package together with lw_law_test.go and runs it.
 func RunLawTest(pkgDir string) TestResult {
 	os.Remove(filepath.Join(pkgDir, "lw_result.txt"))
-	cmd := exec.Command("go", "test", "-vet=off", "-count=1", "-run", "^TestLw$", ".")
+	// -gcflags=-e: report every compile error, not only the first ten (one round is then enough to drop every failing struct)
+	cmd := exec.Command("go", "test", "-vet=off", "-gcflags=-e", "-count=1", "-run", "^TestLw$", ".")
 	cmd.Dir = pkgDir
 	cmd.Env = goEnv()
 	out, _ := cmd.CombinedOutput()
@@ -355,6 +356,7 @@ type Finding struct {
 	Key     string
 	Detail  string
 	Witness map[string]any
+	Struct  *Struct // the struct the finding is about, when known
 }
 
 // Outcome of one package.
@@ -366,6 +368,7 @@ type Outcome struct {
 	Lost       []*Struct // structs not tested because the package could not be compiled
 	Notes      []string
 	GombokRuns int
+	ComboErrs  []ComboCompileError // compile errors of annotation-combination structs (keyed later, over all packages: ComboFindings)
 }
 
 func (o *Outcome) add(k string, n int64) { o.Counters[k] += n }
@@ -547,6 +550,10 @@ func RunPackage(t *Tool, p *Pkg, opt Options) *Outcome {
 						bad[name] = s
 					}
 					class := classifyCompile(e.Msg, s)
+					if s != nil && s.Combo != nil {
+						o.ComboErrs = append(o.ComboErrs, ComboCompileError{Struct: s, Class: class, Msg: normCompileMsg(e.Msg, s.Name), Raw: e.Msg})
+						continue
+					}
 					key := opt.Prefix + "/compile/" + class
 					if !reported[key+name] {
 						reported[key+name] = true
